@@ -162,6 +162,6 @@ func runCPK(c CPKCase, rec *h.Rec) error {
 	return nil
 }
 
-var propCPK = h.NewProp("TestPropCollectivePublicKey", h.Budget{Quick: 600, Thorough: 12000}, genCPK, runCPK)
+var propCPK = h.NewProp("TestPropCollectivePublicKey", h.Budget{Quick: 400, Thorough: 8000}, genCPK, runCPK)
 
 func TestPropCollectivePublicKey(t *testing.T) { propCPK.Check(t) }
